@@ -100,6 +100,47 @@ static void body(Env& env, const std::string& stage, int depth) {
   hist::bfs(env, sp);
 }
 
+// ---- fan-in family: the number of SIMULTANEOUS references to one node as an enumeration dimension, taken across the boundaries of 8- and 16-bit counters
+// (a 32-bit boundary would need 4 G references: out of reach, stated in DESIGN.md).  kind 0: N copies of a constant handle (references to a leaf from roots);
+// kind 1: N copies of a one-node diagram (references to an internal node from roots); kind 2: N distinct parents (the same node renamed to N different variables)
+// above two shared leaves (references from stored parents).  After every phase: every live handle reads its function, the root is in its unique table, and its stored
+// reference count equals stored parents + live roots; between phases other diagrams are built and dropped so that freed memory would be reused.
+static const long FANIN[] = {255, 256, 257, 65535, 65536, 65537, 131072, 131073};
+static long storedParents(uintptr_t a) { long n = 0; for (auto& kv : M::internalCache_) { if (GetLowFromInternal(kv.second).addr_ == a) n++; if (GetHighFromInternal(kv.second).addr_ == a) n++; } return n; }
+static const NP* findNode(uintptr_t a) { for (auto& kv : M::leafCache_) if (kv.second.addr_ == a) return &kv.second; for (auto& kv : M::internalCache_) if (kv.second.addr_ == a) return &kv.second; return nullptr; }
+static bool inTables(uintptr_t a) { for (auto& kv : M::leafCache_) if (kv.second.addr_ == a) return true; for (auto& kv : M::internalCache_) if (kv.second.addr_ == a) return true; return false; }
+static void fanin(Env& env, const std::string& stage) {
+  ParallelOpts o; o.stage = stage; o.size = 3 * (sizeof FANIN / sizeof FANIN[0]); o.block = 1; o.caseTimeout = 300;
+  o.describe = [](uint64_t idx) { return "kind " + std::to_string(idx % 3) + " (0 leaf<-roots, 1 internal<-roots, 2 leaf<-parents), N=" + std::to_string(FANIN[idx / 3]); };
+  o.run = [](uint64_t idx, Ctx& c) { int kind = (int)(idx % 3); long N = FANIN[idx / 3]; c.evals(); c.nontrivial(); c.count("fanin_kind" + std::to_string(kind));
+    std::string what = "kind " + std::to_string(kind) + " N=" + std::to_string(N); size_t leaf0 = M::leafCache_.size(), int0 = M::internalCache_.size();
+    { std::unique_ptr<M> base(kind == 0 ? new M(1) : new M(SymbolicVarAsgn("1"), 1, 0)); std::vector<std::unique_ptr<M>> hs; std::vector<char> over;
+      auto val = [](const M& m, int x) { return m.GetValue(SymbolicVarAsgn(1, x)); };
+      auto verify = [&](const std::string& phase) -> bool {
+        long live = 1; for (auto& h : hs) if (h && h->root_.addr_ == base->root_.addr_) live++;
+        for (int x = 0; x < 2; x++) { int e = kind == 0 ? 1 : x; if (val(*base, x) != e) { c.viol("fan-in", "function_changed", {"kind" + std::to_string(kind)}, what + " " + phase + ": the base handle reads " + std::to_string(val(*base, x))); return false; } }
+        size_t probe[3] = {0, hs.size() / 2, hs.empty() ? 0 : hs.size() - 1}; for (size_t pi : probe) if (pi < hs.size() && hs[pi]) { if (over.size() > pi && over[pi]) { if (hs[pi]->GetValue(SymbolicVarAsgn(1, 0)) != 5) { c.viol("fan-in", "function_changed", {"kind" + std::to_string(kind)}, what + " " + phase + ": overwritten copy #" + std::to_string(pi)); return false; } } else if (kind == 2) { std::string a(pi + 2, '0'); std::string b = a; b[pi + 1] = '1'; if (hs[pi]->GetValue(SymbolicVarAsgn(a)) != 0 || hs[pi]->GetValue(SymbolicVarAsgn(b)) != 1) { c.viol("fan-in", "function_changed", {"kind2"}, what + " " + phase + ": parent #" + std::to_string(pi)); return false; } } else for (int x = 0; x < 2; x++) if (val(*hs[pi], x) != (kind == 0 ? 1 : x)) { c.viol("fan-in", "function_changed", {"kind" + std::to_string(kind)}, what + " " + phase + ": copy #" + std::to_string(pi)); return false; } }
+        std::vector<uintptr_t> watch; if (kind == 2) { watch.push_back(GetLowFromInternal(base->root_).addr_); watch.push_back(GetHighFromInternal(base->root_).addr_); } else watch.push_back(base->root_.addr_);
+        for (uintptr_t a : watch) { if (!inTables(a)) { c.viol("fan-in", "referenced_node_not_in_unique_table", {"kind" + std::to_string(kind)}, what + " " + phase); return false; }
+          long roots = 0; if (base->root_.addr_ == a) roots++; for (auto& h : hs) if (h && h->root_.addr_ == a) roots++; long want = storedParents(a) + roots; long rc = (long)GetRefCnt(*findNode(a));
+          if (rc != want) { c.viol("fan-in", rc < want ? "reference_count_too_small" : "reference_count_too_big", {"kind" + std::to_string(kind)}, what + " " + phase + ": stored count " + std::to_string(rc) + ", referrers " + std::to_string(want)); return false; } }
+        (void)live; return true; };
+      auto churn = [&]() { for (int k = 0; k < 64; k++) { M t(SymbolicVarAsgn(k % 2 ? "10" : "01"), 7 + k, 3); OrF f; M u = f(t, *base); (void)u; } };
+      hs.reserve(N); for (long k = 0; k < N; k++) { if (kind == 2) { size_t var = (size_t)k + 1; hs.emplace_back(new M(base->Rename([var](size_t) { return var; }))); } else hs.emplace_back(new M(*base)); }
+      if (!verify("after creating the references")) goto out;
+      for (long target : {131072L, 65537L, 65536L, 65535L, 65534L, 257L, 256L, 255L, 254L, 1L, 0L}) { if (target >= (long)hs.size()) continue; while ((long)hs.size() > target) hs.pop_back(); churn(); if (!verify("after dropping to " + std::to_string(target) + " extra references")) goto out; }
+      // grow again from the bottom (the counter comes from below this time), copy-assign over half of them, drop everything
+      for (long k = 0; k < std::min(N, 70000L); k++) { if (kind == 2) { size_t var = (size_t)k + 1; hs.emplace_back(new M(base->Rename([var](size_t) { return var; }))); } else hs.emplace_back(new M(*base)); }
+      if (!verify("after growing again")) goto out;
+      { M other(5); over.assign(hs.size(), 0); for (size_t k = 0; k < hs.size(); k += 2) { *hs[k] = other; over[k] = 1; } churn(); if (!verify("after assigning another diagram over every second reference")) goto out; }
+      out:;
+    }
+    if (kind == 2) { /* parents are made with Rename, which the statement does not put under the leak clause: no probe, just a clean store for the next case */ if (M::leafCache_.size() != leaf0 || M::internalCache_.size() != int0) { M::leafCache_.clear(); M::internalCache_.clear(); } }
+    else if (M::leafCache_.size() != leaf0 || M::internalCache_.size() != int0) { c.viol("fan-in", "nodes_left_after_all_handles_destroyed", {"kind" + std::to_string(kind)}, what + ": unique tables hold " + std::to_string(M::leafCache_.size()) + " leaves / " + std::to_string(M::internalCache_.size()) + " internal nodes, baseline " + std::to_string(leaf0) + " / " + std::to_string(int0)); M::leafCache_.clear(); M::internalCache_.clear(); }
+  };
+  env.parallel(o);
+}
+static Register rf("c18.fanin", "C18", "fan-in family: 255..131073 simultaneous references to one leaf / internal node from roots and from stored parents, dropped and regrown across the 8- and 16-bit counter boundaries; values, unique-table membership and exact reference counts after every phase", [](Env& e) { fanin(e, "c18.fanin"); });
 static Register r1("c18.d3", "C18", "BFS depth 3 over construct/const/copy/assign(incl. self)/apply2(or,xor; result may overwrite an operand)/apply1/destroy on 3 handles, 2 variables", [](Env& e) { body(e, "c18.d3", 3); });
 static Register r2("c18.d4", "C18", "BFS depth 4", [](Env& e) { body(e, "c18.d4", 4); });
 static Register r3("c18.d5", "C18", "BFS depth 5", [](Env& e) { body(e, "c18.d5", 5); });
